@@ -33,6 +33,10 @@ func (lc *LeastConnectionsStrategy) NextBackend(r *http.Request) *Backend {
 
 	// Find the backend with the least active connections
 	for _, backend := range lc.backends {
+		// An ejected backend does not compete: the minimum is taken among the eligible ones
+		if !backend.eligible() {
+			continue
+		}
 		connections := backend.GetActiveConnections()
 		if connections < minConnections {
 			minConnections = connections
